@@ -89,7 +89,8 @@ check("C01", "Lean 4 theorems over a hand model of the whole hkl->angles pipelin
       "Z.N_phi = N_lab (remainingSample_sound, Euler extraction; _calc_N generic branch is a proper rotation); all six reference+two-sample branches satisfy Z.N_phi.PSI^T.THETA^T = F(qaz) (twoSampleReference_sound); the four three-sample branches satisfy the sample relation for the qaz they compute (threeSample_sample_sound). The model (Solver/*.lean, ~1200 lines mirroring calc*.py) is run against get_position on "
       "all 185 modes (physical, special-value and degenerate requests); an independent numpy forward model checks every returned element, also inside call sequences.",
       "Lean kernel; standard axioms; PARTIAL: the branch theorems hold on the generic branch (bound() not clipping, no coincident-root / gimbal-lock shortcut); the layer theorems are assembled end to end "
-      "(candidates => forward model = hkl exactly) for all 27 detector (delta/nu/qaz) + two-sample mode shapes (C01Assembly.detSamp2_exact; detector layers exact: C01Detector.detRemaining_sound), for the other shapes the assembly is by correspondence + oracle; hand model tied by sampled correspondence; "
+      "(candidates => forward model = hkl exactly) for all four mode families, i.e. all 185 mode shapes: 27 detector (delta/nu/qaz) + two-sample (C01Assembly.detSamp2_exact), 4 three-sample (C01Assembly2.samp3_exact), "
+      "42 reference + two-sample (refSamp2_exact) and 112 detector-or-naz + reference + one-sample (detRefSamp_exact); every side condition is on a value the solver itself computes; non-generic branches (clipping, shortcuts) rest on the guard theorem + correspondence + oracle; hand model tied by sampled correspondence; "
       "numerically singular requests excluded from the model comparison (counted).",
       "DESIGN.md §6 C01")
 
